@@ -93,11 +93,12 @@ type c17CacheXSpec struct {
 
 // e3Fault fails the Nth call of service.method made by one handler invocation.
 type e3Fault struct {
-	Service string `json:"service"`
-	Method  string `json:"method"`
-	Nth     int    `json:"nth"` // the Nth call fails; 0 = every call
-	Timeout bool   `json:"timeout,omitempty"`
-	UpTo    int    `json:"up_to,omitempty"` // the first UpTo calls fail
+	Service  string `json:"service"`
+	Method   string `json:"method"`
+	Nth      int    `json:"nth"` // the Nth call fails; 0 = every call
+	Timeout  bool   `json:"timeout,omitempty"`
+	UpTo     int    `json:"up_to,omitempty"`    // the first UpTo calls fail
+	Conflict bool   `json:"conflict,omitempty"` // datastore Commit: concurrent-transaction conflict, the transaction's writes are rolled back
 }
 
 type c17Case struct {
@@ -413,6 +414,39 @@ func c17GenCases(rng *rand.Rand, wd *c17World, keepFrac float64, history bool) {
 			sp.B = e3Call{Module: "default", Method: "GET", Path: url, AEUser: ub, ReqID: fmt.Sprintf("cl-%s-cx%d-b", w, v), NoUID: v == 0}
 			wd.add(&c17Case{CacheX: sp, Meta: c17Meta{Kind: "user-cachex", Endpoint: "client", Ident: []string{"users-without-user-id", "users-with-user-id"}[v], Email: ub}})
 		}
+	}
+
+	// revocation while the delete transaction runs into conflicts (e.g. with the agent's own "seen" write of a poll):
+	// every commit conflicts / only the first one does. A DELETE that answers 2xx must have deleted the backend
+	// (not listed, agent refused, no routing); one that could not must answer non-2xx.
+	for v, nth := range []int{0, 1} {
+		b := wd.Bs[0]
+		var pend *c17Req
+		for _, rq := range b.Reqs {
+			if !rq.Answered && pend == nil {
+				pend = rq
+			}
+		}
+		step := 0
+		hist := func(c *c17Case) {
+			c.Meta.History = true
+			c.Keep = step > 0
+			step++
+			wd.add(c)
+		}
+		root := "root-" + w + "@corp.example.com"
+		del := &c17Case{Meta: c17Meta{Kind: "admin", Endpoint: "delete", Ident: "ae-admin", IsAdmin: true, Target: b.Rec.ID, Email: root,
+			Fault: []string{"datastore.Commit#all:conflict", "datastore.Commit#1:conflict"}[v]}}
+		del.Call = e3Call{Module: "api", Method: "DELETE", Path: escPath("/api/backends/" + b.Rec.ID), AEUser: root, AEAdmin: true}
+		del.Faults = []e3Fault{{Service: "datastore_v3", Method: "Commit", Nth: nth, Conflict: true}}
+		hist(del)
+		list := &c17Case{Meta: c17Meta{Kind: "admin", Endpoint: "list", Ident: "ae-admin", IsAdmin: true, Email: root}}
+		list.Call = e3Call{Module: "api", Method: "GET", Path: "/api/backends", AEUser: root, AEAdmin: true}
+		hist(list)
+		hist(wd.agentCall(c17Ident{"agent-after-conflicting-delete", &e3OAuth{Email: b.Rec.BackendUser}}, "request", b.Rec.ID, "revoked?", pend.RID, "own-pending", b.Rec.ID))
+		cl := &c17Case{Until: true, Meta: c17Meta{Kind: "user", Endpoint: "client", Ident: "end-user-after-conflicting-delete", Email: pend.User}}
+		cl.Call = e3Call{Module: "default", Method: "GET", Path: escPath(b.Rec.PathPrefixes[len(b.Rec.PathPrefixes)-1] + "after-delete"), AEUser: pend.User, ReqID: fmt.Sprintf("cl-%s-del%d", w, v)}
+		hist(cl)
 	}
 
 	// concurrent agent calls for one backend: its rightful agent and strangers at the same moment, while reads of the
@@ -767,8 +801,8 @@ func c17GenCases(rng *rand.Rand, wd *c17World, keepFrac float64, history bool) {
 	}
 	// the same agent calls with one failing store read each: a transient error must never turn a cross-backend
 	// or unauthorised call into an accepted one
-	variants := []e3Fault{{"datastore_v3", "Get", 1, false, 0}, {"datastore_v3", "Get", 2, true, 0}, {"datastore_v3", "Get", 3, false, 0},
-		{"memcache", "Get", 1, false, 0}, {"memcache", "Get", 2, false, 0}, {"datastore_v3", "RunQuery", 1, true, 0}}
+	variants := []e3Fault{{"datastore_v3", "Get", 1, false, 0, false}, {"datastore_v3", "Get", 2, true, 0, false}, {"datastore_v3", "Get", 3, false, 0, false},
+		{"memcache", "Get", 1, false, 0, false}, {"memcache", "Get", 2, false, 0, false}, {"datastore_v3", "RunQuery", 1, true, 0, false}}
 	// outages: the first two, the first three, every datastore read of the call fails (memcache stays up)
 	outages := []e3Fault{{Service: "datastore_v3", Method: "Get", UpTo: 2}, {Service: "datastore_v3", Method: "Get", UpTo: 3}, {Service: "datastore_v3", Method: "Get", Nth: 0}}
 	base := append([]*c17Case(nil), wd.Cases...)
@@ -1223,7 +1257,7 @@ func (wd *c17World) judge(r *core.Run, c *c17Case, res *c17Result, st *c17State)
 				viol("admin-list-wrong", fmt.Sprintf("%d backends listed, %d registered", len(gm), len(st.reg)))
 			}
 		case "add", "add-takeover", "add-reregister", "add-restore", "delete":
-			if res.Status != 200 {
+			if res.Status != 200 && !(faulted && res.Status/100 == 5) {
 				viol("admin-"+m.Endpoint+"-fails", fmt.Sprintf("status %d", res.Status))
 			}
 		}
@@ -1444,7 +1478,7 @@ func (c *c17Case) class() string {
 
 // C17 — who may act as agent, user and admin.
 func C17(r *core.Run) {
-	r.SetRule("worlds of 1-3 registered backends (distinct/shared agent accounts, per-user/shared end users, plain and exotic IDs, IDs related across a separator (B2 = B1<sep>word for sep in : / | \" space . % \\) with request IDs crafted so that (backend, request ID) read across the separator names another backend's request, pending and answered requests with planted secrets) x caller identity {no OAuth, a token whose account has an empty e-mail address, stranger, OAuth admin that is no agent, each agent} x endpoint {pending, request, response} x named backend {each, unknown, absent} x request ID {pending/answered of each backend, unknown, absent}; admin API {list, add, takeover, garbage, delete, other methods/paths} x {App Engine admin, OAuth admin, plain user, agent, nobody, OAuth accounts with an empty / blank / \",\" e-mail address} with follow-up calls on the resulting state; end users x paths through the client handler (also: owner/other-user alternations and concurrent bursts on private prefixes; two users of different private backends in flight with client-supplied X-Inverting-Proxy-Request-ID / -Backend-ID / -User-ID headers of equal values while only one backend's agent answers - the other user must not receive that answer; bursts of concurrent agent calls for one backend by its rightful agent and by strangers while datastore reads take a few milliseconds; the response cache across users with and without a user ID in the Users API); scripted histories (agent works, the same backend ID is registered again for another agent account and end user, old and new agent on every endpoint, former and new end user through the client handler, unregister, original registration restored) and random-order histories, both judged against an evolving model of who is registered; the cross-backend, unknown-ID and unauthorised agent calls repeated with one failing store read each (k-th datastore Get / memcache Get / RunQuery of that handler invocation, or the first two / first three / all datastore Gets, internal error or timeout: acceptance and foreign writes stay forbidden, 4xx/5xx are admissible); every call goes through appengine's handleHTTP and the app's routing closure; class = (kind, endpoint, identity class, named-backend class, request-ID class, history?)")
+	r.SetRule("worlds of 1-3 registered backends (distinct/shared agent accounts, per-user/shared end users, plain and exotic IDs, IDs related across a separator (B2 = B1<sep>word for sep in : / | \" space . % \\) with request IDs crafted so that (backend, request ID) read across the separator names another backend's request, pending and answered requests with planted secrets) x caller identity {no OAuth, a token whose account has an empty e-mail address, stranger, OAuth admin that is no agent, each agent} x endpoint {pending, request, response} x named backend {each, unknown, absent} x request ID {pending/answered of each backend, unknown, absent}; admin API {list, add, takeover, garbage, delete, other methods/paths} x {App Engine admin, OAuth admin, plain user, agent, nobody, OAuth accounts with an empty / blank / \",\" e-mail address} with follow-up calls on the resulting state; end users x paths through the client handler (also: owner/other-user alternations and concurrent bursts on private prefixes; two users of different private backends in flight with client-supplied X-Inverting-Proxy-Request-ID / -Backend-ID / -User-ID headers of equal values while only one backend's agent answers - the other user must not receive that answer; bursts of concurrent agent calls for one backend by its rightful agent and by strangers while datastore reads take a few milliseconds; the response cache across users with and without a user ID in the Users API); scripted histories (agent works, the same backend ID is registered again for another agent account and end user, old and new agent on every endpoint, former and new end user through the client handler, unregister, original registration restored) and revocation while the delete transaction's commit conflicts (always / once), and random-order histories, all judged against an evolving model of who is registered; the cross-backend, unknown-ID and unauthorised agent calls repeated with one failing store read each (k-th datastore Get / memcache Get / RunQuery of that handler invocation, or the first two / first three / all datastore Gets, internal error or timeout: acceptance and foreign writes stay forbidden, 4xx/5xx are admissible); every call goes through appengine's handleHTTP and the app's routing closure; class = (kind, endpoint, identity class, named-backend class, request-ID class, history?)")
 	r.Assume("/cron/delete is executed but not judged (documented as restricted by app.yaml); an authorised call reading or writing keys in its own backend's namespace that merely contain a caller-supplied foreign request ID is not counted as touching the other backend; status codes for unknown/absent request IDs are only required to be 4xx; client requests are cut short once queued (incoming context cancelled) instead of waiting 30 s")
 	bin := r.MustBuild(e3Build(r))
 	rng := r.Rand("c17")
